@@ -143,6 +143,9 @@ func (s *Set) getSiblingTemplate(templatePath, siblingPath string, cacheAfterPar
 	if !path.IsAbs(templatePath) {
 		siblingDir := path.Dir(siblingPath)
 		templatePath = path.Join(siblingDir, templatePath)
+	} else {
+		// also rules out ".." elements that would make a loader leave its root
+		templatePath = path.Clean(templatePath)
 	}
 	return s.getTemplate(templatePath, cacheAfterParsing, parsing...)
 }
